@@ -26,7 +26,7 @@ EXPLANATION = (
     'behind exactly "value < 0" (or a missing storage).')
 EXPLANATION += ' C07.R2 accepts an explicit comparator only when it compares (boundary, value) in double without converting the boundary. The shared rule C06.R1 (Aggregate while holding the table lock) is evaluated for the histogram path.'
 EXPLANATION += " C07.R1 min/max obligations are semantic: a write is either the selection min(old, value) (std::min/max or the equivalent conditional expression) or a plain store of the value behind the edge on which the value beats the stored extreme, and a path that writes nothing must have passed the opposite edge. C07.R6 is a decision table: with the storage pointer pinned non-null and every comparison of the value with zero pinned to 'not negative', no path avoids the forwarding call (named booleans, else-chains and conditional expressions are folded by the path explorer)."
-ROUND2_EXPLANATION = (' C07.R7: Merge / Diff hand (this point, argument's point, result) to HistogramMerge / HistogramDiff; every field difference of HistogramDiff is next - current; Aggregate adds the recorded value itself to sum_ (no narrowing conversion). Shared C06.R9: folding collection intervals accumulates.')
+ROUND2_EXPLANATION = (' C07.R7: Merge / Diff hand (this point, the point of the argument, result) to HistogramMerge / HistogramDiff; every field difference of HistogramDiff is next - current; Aggregate adds the recorded value itself to sum_ (no narrowing conversion). Shared C06.R9: folding collection intervals accumulates.')
 EXPLANATION += ROUND2_EXPLANATION
 NOT_DECIDED = 'numeric equality for all value multisets (floating-point sums), equality of merged and jointly recorded points.'
 
